@@ -33,6 +33,9 @@ def AU():
 
 
 # ---------------------------------------------------------------------------------------------- small helpers
+LAST_TB = [""]
+
+
 def call(f):
     """('ok', value) or ('err', exception class name)"""
     try:
@@ -40,6 +43,8 @@ def call(f):
             warnings.simplefilter("ignore")
             return ("ok", f())
     except Exception as e:  # noqa
+        import traceback
+        LAST_TB[0] = "".join(traceback.format_exc().splitlines(True)[-7:])
         return ("err", type(e).__name__)
 
 
@@ -1025,6 +1030,431 @@ def run_raire(ctx, res, st):
     st["raire comparison"] = sum(1 for c in cases if not c["polling"])
 
 
+# ---------------------------------------------------------------------------------------------- wide stream (oracle only)
+# Scale, representation variants of legal inputs, and state shared between calls.  Everything here is checked by the
+# size-independent oracle (the test's own history on the population built here; prefix invariance; interleaving counts);
+# none of it goes through Coq.
+CHEAP = ["alpha_fixed", "alpha_optcomp", "bet_fixed", "kk", "km", "kw", "sprt"]
+
+
+def bump(st, key):
+    st[key] = st.get(key, 0) + 1
+
+
+def wide_cfg(rng, N, heavy_ok=False, kind=None):
+    kind = kind or rng.choice(nnm.KINDS if heavy_ok else CHEAP)
+    cfg = nnm.gen_cfg(rng, kind=kind, finite=True)
+    cfg["N"] = N
+    return exact(cfg)
+
+
+def wide_pilot(rng, cfg, L, zero_one=False):
+    """non-constant pilot values in [0, u] whose mean is a little above t (so the first crossing is far out)"""
+    u, t = float(cfg["u"]), float(cfg["t"])
+    prs = np.random.RandomState(rng.randint(0, 2 ** 32 - 1))
+    lift = rng.choice([1e-3, 1e-2, 0.03, 0.1, 0.3])
+    if zero_one and u == 1:
+        return (prs.random_sample(L) < min(0.98, t + (1 - t) * lift + 0.02)).astype(float)
+    mean = t + (u - t) * lift
+    w = min(mean, u - mean) * rng.choice([1.0, 0.5, 0.1])
+    x = mean + (prs.random_sample(L) - 0.5) * 2 * w
+    if rng.random() < 0.3:        # a few extreme cards
+        idx = prs.choice(L, size=max(1, L // 50), replace=False)
+        x[idx] = prs.choice([0.0, u], size=len(idx))
+    return np.clip(x, 0.0, u)
+
+
+def rep_x(rng, x):
+    """the same values as the caller might hold them"""
+    x = np.asarray(x, dtype=float)
+    zero_one = bool(np.all((x == 0) | (x == 1)))
+    forms = ["ndarray float64", "list of float", "tuple of float"]
+    if zero_one:
+        forms += ["ndarray int64", "list of int", "tuple of int", "ndarray bool", "list of bool"]
+    f = rng.choice(forms)
+    if f == "ndarray float64":
+        return x.copy(), f
+    if f == "list of float":
+        return [float(v) for v in x], f
+    if f == "tuple of float":
+        return tuple(float(v) for v in x), f
+    if f == "ndarray int64":
+        return x.astype(np.int64), f
+    if f == "list of int":
+        return [int(v) for v in x], f
+    if f == "tuple of int":
+        return tuple(int(v) for v in x), f
+    if f == "ndarray bool":
+        return x.astype(bool), f
+    return [bool(v) for v in x], f
+
+
+def rep_num(rng, v):
+    """a numeric parameter as a Python float or a numpy scalar"""
+    if v is None:
+        return None
+    return float(v) if rng.random() < 0.5 else np.float64(float(v))
+
+
+def call_ss(rng, tst, x, alpha, reps=None, prefix=False, quantile=0.5, seed="omit"):
+    """NonnegMean.sample_size with keyword or positional arguments"""
+    kw = {} if seed == "omit" else {"seed": seed}
+    z = rng.random()
+    if reps is None and z < 0.25:
+        return call(lambda: int(tst.sample_size(x, alpha, **kw))), "positional"
+    if z < 0.5:
+        return call(lambda: int(tst.sample_size(x, alpha, reps, prefix, quantile, **kw))), "positional"
+    if z < 0.75:
+        return call(lambda: int(tst.sample_size(x=x, alpha=alpha, reps=reps, prefix=prefix, quantile=quantile, **kw))), "keyword"
+    return call(lambda: int(tst.sample_size(x, alpha=alpha, reps=reps, quantile=quantile, prefix=prefix, **kw))), "mixed"
+
+
+def wide_det(ctx, res, st, N, tag, zero_one=False, L=None, reuse=None):
+    """deterministic estimate at scale / in another representation; returns the NonnegMean instance used"""
+    rng = ctx.rng
+    kind = reuse[1]["kind"] if reuse else (rng.choice([k for k in CHEAP if k != "alpha_optcomp"]) if zero_one else None)
+    cfg = wide_cfg(rng, N, heavy_ok=(N <= 3000), kind=kind)
+    if zero_one and cfg["u"] != 1:
+        cfg["u"] = F(1)
+        cfg["t"] = F(1, 2)
+        cfg["p"] = gen_params(rng, cfg["kind"], cfg["t"], cfg["u"])
+        exact(cfg)
+    if L is None:
+        L = rng.randint(1000, 5000)
+        while N % L == 0 or L % 8 == 0 or L % 10 == 0:
+            L += 1
+    x = wide_pilot(rng, cfg, L, zero_one)
+    pop = np.tile(x, math.ceil(N / L))[0:N]
+    try:
+        h = hist_impl(nnm.build(cfg), pop)
+    except Exception:  # noqa
+        bump(st, "test raised on the population (skipped)")
+        return None
+    full = L * (N // L)
+    alpha = None
+    if full < N and rng.random() < 0.4:
+        alpha = pick_alpha(rng, [h], "target", full, N)
+    if alpha is None:
+        alpha = pick_alpha(rng, [h], rng.choice(["target", "target", "target", "never"]))
+    if alpha is None:
+        bump(st, "no risk limit outside the guard band (regenerated)")
+        return None
+    exp = first_cross(h, alpha, N)
+    if reuse:      # the same instance, re-parametrised in place after an earlier estimate
+        tst = reuse[0]
+        nnm.retarget(tst, cfg)
+        how = "instance reused after another estimate"
+    else:
+        tst = nnm.build(cfg, variant=rng.randint(0, 14))
+        how = "fresh instance"
+    xr, form = rep_x(rng, x)
+    out, style = call_ss(rng, tst, xr, rep_num(rng, alpha))
+    res.oracle_runs += 1
+    bump(st, f"wide det: {tag}")
+    bump(st, f"wide: x as {form}")
+    if exp >= 1000:
+        bump(st, "wide: first crossing beyond 1000 draws")
+    if out != ("ok", exp):
+        res.oracle_violations.append({
+            "what": "sample_size (deterministic): estimate is not the first crossing of the test on the pilot data tiled to N",
+            "input": {"cfg": C.jsonable(cfg), "x": [float(v) for v in x], "x_given_as": form, "alpha": alpha, "arguments": style,
+                      "instance": how, "stream": tag},
+            "observed": C.jsonable(out), "expected": exp, "signature": "C16:det"})
+    return tst, cfg
+
+
+def wide_sim(ctx, res, st, L, tag):
+    """prefix invariance at scale: long prefix that crosses, reps that are not round, unusual quantiles, seed given /
+    omitted / None (None: numpy seeds itself from the OS — the estimate must still be k)"""
+    rng = ctx.rng
+    N = L + rng.randint(1, max(2, L))
+    cfg = wide_cfg(rng, N, heavy_ok=(N <= 400))
+    x = wide_pilot(rng, cfg, L)
+    try:
+        hp = hist_impl(nnm.build(cfg), np.append(x, x[0]))[:L]
+    except Exception:  # noqa
+        bump(st, "test raised on the population (skipped)")
+        return
+    alpha = pick_alpha(rng, [hp], "target", 0, L)
+    if alpha is None or not any(p <= alpha for p in hp):
+        return
+    k = first_cross(hp, alpha, N)
+    for _ in range(2):
+        reps = rng.choice([1, 3, 7, 13, 37] if N > 3000 else [1, 3, 7, 13, 37, 101, 53])
+        q = rng.choice([0.37, 0.05, 0.95, 0.123, 0.5, 0.999, 0.0, 1.0, rng.random()])
+        seed = rng.choice(["omit", None, rng.randint(0, 2 ** 32 - 1), 0])
+        xr, form = rep_x(rng, x)
+        out, style = call_ss(rng, nnm.build(cfg, variant=rng.randint(0, 14)), xr, rep_num(rng, alpha), reps, True, rep_num(rng, q), seed)
+        res.oracle_runs += 1
+        bump(st, f"wide sim: {tag}")
+        bump(st, "wide sim: seed " + ("omitted" if seed == "omit" else "None" if seed is None else "given"))
+        if out != ("ok", k):
+            res.oracle_violations.append({
+                "what": "simulation-based estimate with a prefix that already crosses the risk limit at k is not k",
+                "input": {"cfg": C.jsonable(cfg), "x": [float(v) for v in x], "x_given_as": form, "alpha": alpha,
+                          "seed": C.jsonable(seed), "reps": reps, "quantile": q, "prefix": True, "k": k, "arguments": style},
+                "observed": C.jsonable(out), "signature": "C16:prefix-invariance"})
+            return
+
+
+def wide_spec(rng, typ, N, m, kind=None):
+    ub = rng.choice([F(1), F(1), F(2), F(3, 2)])
+    m = C.frac(float(m))
+    u = ub if typ == "POLLING" else C.frac(2 / (2 - float(m) / float(ub)))
+    cfg = cfg_for(rng, N, F(1, 2), u, kind or rng.choice(CHEAP))
+    tally = None
+    if typ == "POLLING":
+        d = max(1, int(round(float(m) * N * rng.choice([1, 3, 10]))))
+        n0 = rng.randint(0, max(0, (N - d) // 2))
+        tally = (n0, min(N - n0, n0 + d))
+    return {"typ": typ, "irv": False, "N": N, "ub": ub, "m": m, "cfg": cfg, "tally": tally, "set_u": True, "margin_state": "set"}
+
+
+WIDE_RATES = [None, 0, 0.0, 0.001, 0.003, 0.007, 0.01, 0.013, 1 / 300, 0.3, 0.15, 0.0004, 1 / 7]
+
+
+def expect_asn(rng, spec, r1, r2, mode=None):
+    """(documented population, risk limit, first crossing) for a constructed-data estimate; None if undefined"""
+    doc = doc_population(spec, r1, r2)
+    if doc is None:
+        return None
+    try:
+        h = hist_impl(nnm.build(spec["cfg"]), doc)
+    except Exception:  # noqa
+        return None
+    alpha = pick_alpha(rng, [h], mode or rng.choice(["target", "target", "target", "never"]))
+    if alpha is None:
+        return None
+    return doc, alpha, first_cross(h, alpha, spec["N"]), h
+
+
+def retarget_asn(a, spec, alpha):
+    """re-parametrise an existing Assertion (and its Contest and test) in place for another estimate"""
+    con = a.contest
+    con.risk_limit = float(alpha)
+    con.cards = spec["N"]
+    con.audit_type = spec["typ"]
+    t = spec["tally"]
+    con.tally = None if t is None else {"W": t[1], "L": t[0], "O": spec["N"] - t[0] - t[1]}
+    a.margin = float(spec["m"])
+    a.assorter.upper_bound = float(spec["ub"])
+    if getattr(a, "_kind", None) == spec["cfg"]["kind"] and rng_flag[0]:
+        nnm.retarget(a.test, spec["cfg"])        # same test / estimator / bet: parameters reassigned in place
+    else:
+        a.test = nnm.build(spec["cfg"])
+    a._kind = spec["cfg"]["kind"]
+
+
+rng_flag = [True]
+
+
+def call_fss(rng, a, r1, r2, reps=None, prefix=False, quantile=0.5, seed="omit", data=None):
+    """Assertion.find_sample_size with keyword or positional arguments; rates as Python numbers or numpy scalars"""
+    def num(r):
+        return r if (r is None or isinstance(r, int)) else rep_num(rng, r)
+    r1, r2 = num(r1), num(r2)
+    z = rng.random()
+    if seed == "omit" and z < 0.35:
+        return call(lambda: int(a.find_sample_size(data, prefix, r1, r2, reps, quantile))), "positional"
+    if seed != "omit" and z < 0.35:
+        return call(lambda: int(a.find_sample_size(data, prefix, r1, r2, reps, quantile, seed))), "positional"
+    kw = {} if seed == "omit" else {"seed": seed}
+    if z < 0.7:
+        return call(lambda: int(a.find_sample_size(data=data, prefix=prefix, rate_1=r1, rate_2=r2, reps=reps, quantile=quantile, **kw))), "keyword"
+    return call(lambda: int(a.find_sample_size(rate_2=r2, rate_1=r1, reps=reps, **kw))), "keyword, defaults"
+
+
+def wide_asn(ctx, res, st, spec, tag, a=None):
+    """constructed-data estimate of one assertion at scale / on a re-used Assertion; returns the Assertion"""
+    rng = ctx.rng
+    r1, r2 = rng.choice(WIDE_RATES), rng.choice(WIDE_RATES)
+    e = expect_asn(rng, spec, r1, r2)
+    if e is None:
+        return a
+    doc, alpha, exp, _ = e
+    if a is None:
+        a = build_asn(spec, alpha)
+        a._kind = spec["cfg"]["kind"]
+        how = "fresh Assertion"
+    else:
+        rng_flag[0] = rng.random() < 0.6
+        retarget_asn(a, spec, alpha)
+        how = "Assertion / Contest / test re-used after another estimate"
+    rec = []
+    spy_on(a.test, rec)
+    a.sample_size = None
+    out, style = call_fss(rng, a, r1, r2, prefix=rng.random() < 0.3)
+    try:
+        del a.test.sample_size
+    except AttributeError:
+        pass
+    res.oracle_runs += 1
+    bump(st, f"wide asn: {tag} {spec['typ']}")
+    if exp >= 1000:
+        bump(st, "wide: first crossing beyond 1000 draws")
+    tname = {"POLLING": "polling", "CARD_COMPARISON": "comparison", "ONEAUDIT": "ONEAudit"}[spec["typ"]]
+    bad = None
+    if out[0] != "ok":
+        bad = f"raises {out[1]}: {LAST_TB[0]}"
+    elif rec and (len(rec[0]) != len(doc) or not np.allclose(rec[0], doc, rtol=1e-12, atol=1e-15)):
+        bad = "the hypothetical population handed to the test is not the documented one"
+    elif out[1] != exp:
+        bad = f"estimate {out[1]} is not the first crossing {exp} of the test on the documented population"
+    elif getattr(a, "sample_size", None) != out[1]:
+        bad = "sample_size attribute not set to the estimate"
+    if bad:
+        res.oracle_violations.append({"what": f"find_sample_size ({tname}): " +
+                                              (bad if bad.startswith(("raises", "the hyp", "sample_size")) else "estimate is not the first crossing on the documented population"),
+                                      "input": {"audit_type": spec["typ"], "N": spec["N"], "upper_bound": str(spec["ub"]), "margin": float(spec["m"]),
+                                                "test": C.jsonable(spec["cfg"]), "tally(loser,winner)": C.jsonable(spec["tally"]),
+                                                "rate_1": C.jsonable(r1), "rate_2": C.jsonable(r2), "risk_limit": alpha, "arguments": style,
+                                                "objects": how, "stream": tag},
+                                      "observed": bad, "signature": f"C16:asn:{tname}"})
+    return a
+
+
+def wide_contests(ctx, res, st):
+    """two contests of different audit types, each with 2-3 assertions, estimated alternately A, B, A, B with the audit's
+    assumed rates changed in between: every answer must be the maximum of the first crossings for the CURRENT parameters"""
+    rng = ctx.rng
+    A = AU()
+    types_ = rng.sample(["POLLING", "CARD_COMPARISON", "ONEAUDIT"], 2)
+    cons = []
+    for typ in types_:
+        N = rng.randint(20, 400)
+        specs = [wide_spec(rng, "CARD_COMPARISON" if typ == "ONEAUDIT" else typ, N, rng.choice([0.3, 0.1, 0.05, 0.02, 0.2])) for _ in range(rng.randint(2, 3))]
+        for s_ in specs:
+            s_["tally"] = specs[0]["tally"]
+            s_["typ"] = typ
+        cons.append((typ, N, specs))
+    rates = [(rng.choice(WIDE_RATES[1:]), rng.choice(WIDE_RATES)) for _ in range(2)]
+    hs, docs_ok = [], True
+    for typ, N, specs in cons:
+        for s_ in specs:
+            for r1, r2 in rates:
+                d = doc_population(s_, r1, r2)
+                if d is None:
+                    return
+                try:
+                    hs.append(hist_impl(nnm.build(s_["cfg"]), d))
+                except Exception:  # noqa
+                    return
+    alpha = pick_alpha(rng, hs, "grid")
+    if alpha is None:
+        return
+    objs = []
+    for typ, N, specs in cons:
+        a0 = build_asn(specs[0], alpha)
+        con = a0.contest
+        asns = {"a0": a0}
+        for i, s_ in enumerate(specs[1:], 1):
+            asns[f"a{i}"] = build_asn(s_, alpha, con=con)
+        con.assertions = asns
+        objs.append(con)
+    for rnd, (r1, r2) in enumerate(rates + rates[:1]):
+        audit = A.Audit(error_rate_1=rep_num(rng, r1) if not isinstance(r1, int) else r1,
+                        error_rate_2=rep_num(rng, r2) if not (r2 is None or isinstance(r2, int)) else r2,
+                        reps=None, quantile=0.5, sim_seed=7)
+        for (typ, N, specs), con in zip(cons, objs):
+            exps = [first_cross(hist_impl(nnm.build(s_["cfg"]), doc_population(s_, r1, r2)), alpha, N) for s_ in specs]
+            if typ == "ONEAUDIT":     # data=None is only reachable for ONEAudit through the assertions themselves
+                per = [call(lambda a=a: int(a.find_sample_size(rate_1=audit.error_rate_1, rate_2=audit.error_rate_2))) for a in con.assertions.values()]
+                out = ("ok", max(p[1] for p in per)) if all(p[0] == "ok" for p in per) else per[0]
+            else:
+                out = call(lambda: int(con.find_sample_size(audit=audit)))
+            res.oracle_runs += 1
+            bump(st, "wide state: contests of different audit types estimated alternately")
+            if out != ("ok", max(exps)):
+                res.oracle_violations.append({
+                    "what": "Contest.find_sample_size: not the largest of its assertions' estimates",
+                    "input": {"audit_type": typ, "N": N, "assertions": C.jsonable(specs), "rate_1": C.jsonable(r1), "rate_2": C.jsonable(r2),
+                              "risk_limit": alpha, "round": rnd + 1, "note": "two contests estimated alternately, rates changed between rounds"},
+                    "observed": C.jsonable(out), "expected": {"first crossings": exps}, "signature": "C16:contest"})
+                return
+
+
+def wide_interleave(ctx, res, st):
+    """interleave_values: counts as Python ints / numpy integers, keyword vs positional values, and the SAME counts with
+    different values back to back"""
+    rng = ctx.rng
+    A = AU()
+    big_case = rng.random() < 0.15
+    ns, nm, nb = (rng.randint(0, 40000), rng.randint(0, 40000), rng.randint(0, 40000)) if big_case else \
+        tuple(rng.choice([0, 1, rng.randint(2, 300)]) for _ in range(3))
+    if ns + nm + nb == 0:
+        nb = 3
+    cnt = (lambda v: int(v)) if rng.random() < 0.5 else (lambda v: np.int64(v))
+    for rnd in range(2):
+        vals = sorted(rng.sample([0.0, 0.25, 0.5, 1.0, 1.5, 2.0, 1 / 1.9, 0.5 / 1.9, 0.125, 3.0], 3))
+        if rnd == 0 and rng.random() < 0.4:
+            vals = [0.0, 0.5, 1.0]
+            out = call(lambda: np.asarray(A.Assertion.interleave_values(cnt(ns), cnt(nm), cnt(nb)), dtype=float))
+        elif rng.random() < 0.5:
+            out = call(lambda: np.asarray(A.Assertion.interleave_values(cnt(ns), cnt(nm), cnt(nb), vals[0], vals[1], vals[2]), dtype=float))
+        else:
+            out = call(lambda: np.asarray(A.Assertion.interleave_values(n_big=cnt(nb), n_small=cnt(ns), n_med=cnt(nm),
+                                                                        big=rep_num(rng, vals[2]), small=rep_num(rng, vals[0]), med=rep_num(rng, vals[1])), dtype=float))
+        res.oracle_runs += 1
+        bump(st, "wide interleave" + (": same counts, other values, back to back" if rnd else ""))
+        bad = None
+        if out[0] != "ok":
+            bad = f"raises {out[1]}"
+        else:
+            x = out[1]
+            got = [int(np.sum(x == np.float64(v))) for v in vals]
+            if len(x) != ns + nm + nb:
+                bad = f"length {len(x)} instead of {ns + nm + nb}"
+            elif got != [ns, nm, nb]:
+                bad = f"counts {got} instead of {[ns, nm, nb]}"
+        if bad:
+            res.oracle_violations.append({"what": "interleave_values does not return the requested number of each value: " + bad.split(" ")[0],
+                                          "input": {"n_small": ns, "n_med": nm, "n_big": nb, "values": vals, "call": rnd + 1,
+                                                    "note": "second call repeats the counts with other values" if rnd else ""},
+                                          "observed": bad, "signature": "C16:interleave"})
+            return
+
+
+def run_wide(ctx, res, st):
+    rng = ctx.rng
+    q = ctx.quick
+    # (1) scale
+    for _ in range(ctx.n(6, 40)):
+        wide_det(ctx, res, st, rng.choice([rng.randint(5000, 20000), rng.randint(20000, 70000)]), "N 5e3..7e4, pilot of 1000-5000 values")
+    for _ in range(ctx.n(1, 4)):
+        wide_det(ctx, res, st, 10 ** 6, "N = 1e6, pilot of 1000-5000 values")
+    for _ in range(ctx.n(4, 30)):
+        wide_sim(ctx, res, st, rng.randint(1000, 5000), "prefix of 1000-5000 values")
+    for _ in range(ctx.n(7, 50)):
+        typ = rng.choice(["POLLING", "CARD_COMPARISON", "ONEAUDIT"])
+        N = rng.choice([rng.randint(2000, 20000), rng.randint(20000, 120000)])
+        wide_asn(ctx, res, st, wide_spec(rng, typ, N, rng.choice([1e-4, 3e-5, 1e-5, 1e-6, 2.5e-4, 1e-3, 7e-3])), "tiny margin, N 2e3..1.2e5")
+    for _ in range(ctx.n(1, 3)):
+        wide_asn(ctx, res, st, wide_spec(rng, rng.choice(["CARD_COMPARISON", "ONEAUDIT"]), 10 ** 6, rng.choice([1e-4, 1e-5, 3e-4])), "N = 1e6")
+    # (2) representation (small sizes, many variants)
+    for _ in range(ctx.n(40, 400)):
+        N = rng.randint(5, 200)
+        wide_det(ctx, res, st, N, "small N, representation variants", zero_one=rng.random() < 0.6,
+                 L=rng.choice([rng.randint(1, min(N, 30)), rng.randint(1, N)]))
+    for _ in range(ctx.n(12, 120)):
+        wide_sim(ctx, res, st, rng.randint(3, 60), "short prefix")
+    for _ in range(ctx.n(30, 300)):
+        wide_interleave(ctx, res, st)
+    # (3) state shared between calls
+    for _ in range(ctx.n(12, 120)):      # one NonnegMean instance, two different estimates in a row
+        first = wide_det(ctx, res, st, rng.randint(5, 300), "state: first estimate", L=rng.randint(1, 20))
+        if first:
+            wide_det(ctx, res, st, rng.randint(5, 300), "state: second estimate on the same instance", L=rng.randint(1, 20), reuse=first)
+    for _ in range(ctx.n(14, 140)):      # one Assertion / Contest, estimates of different audit types in a row
+        a = None
+        kind = rng.choice(CHEAP)
+        for step in range(rng.randint(2, 3)):
+            typ = rng.choice(["POLLING", "CARD_COMPARISON", "ONEAUDIT"])
+            spec = wide_spec(rng, typ, rng.randint(10, 400), rng.choice([0.5, 0.2, 0.1, 0.05, 0.01, 0.3]), kind=kind)
+            a = wide_asn(ctx, res, st, spec, "state: estimate #%d on the same objects" % (step + 1), a=a)
+    for _ in range(ctx.n(8, 80)):
+        wide_contests(ctx, res, st)
+
+
 # ---------------------------------------------------------------------------------------------- entry point
 def run(ctx, res):
     from . import genarith
@@ -1082,6 +1512,9 @@ def run(ctx, res):
         t1 = time.time()
         f(ctx, res, st)
         secs[name] = round(time.time() - t1, 1)
+    t1 = time.time()
+    run_wide(ctx, res, st)
+    secs["wide (scale, representation, state; oracle only)"] = round(time.time() - t1, 1)
     st["seconds per part"] = secs
 
     res.exhaustive = False
@@ -1093,7 +1526,12 @@ def run(ctx, res):
                 "find_sample_size for polling / comparison / ONEAudit with rate_1, rate_2 in {omitted, None, 0, 0.0, positive, > 1}, margin "
                 "set / None / non-positive, test.u set from the margin or left at 1, data given (tiled; crossing prefix simulated); contests "
                 "of 1-4 assertions; Audit.find_sample_size with proved assertions skipped; raire sample_estimator.  Non-trivial = non-constant "
-                "hypothetical population (distinct by inputs), for contests: assertion estimates not all equal")
+                "hypothetical population (distinct by inputs), for contests: assertion estimates not all equal.  Wide stream (oracle only): "
+                "pilot data / prefixes of 1000-5000 values with lengths off every block size, N up to 1e6, margins 1e-3..1e-6, rates with "
+                "non-integer reciprocals, reps 1..101 not round, arbitrary quantiles, seed given / omitted / None; x as list / tuple / ndarray "
+                "of float64 / int64 / bool, parameters as Python numbers or numpy scalars, keyword vs positional arguments; the same "
+                "NonnegMean / Assertion / Contest object re-parametrised for a second and third estimate, contests of different audit types "
+                "estimated alternately, interleave_values with the same counts and other values back to back")
     res.samples = [ss_json(c) for c in det[:2]] + [ss_json(c) for c in sims[:1]] + [ac_json(c) for c in acs[:2]]
     res.assumptions = ["numpy's Mersenne Twister (RandomState.choice) is replayed, not modelled; np.quantile modelled by its linear method "
                        "for the runs and by 'quantile of a constant list is that constant' for the theorem",
